@@ -4,7 +4,9 @@
     {"ops": [...]}                       M3: a sequence of (thread id, Session API call) on `Session.step`
                                          (same answer as drivers/Session.lean — the `sess` stream is reused);
     {"events": [...]}                    M4: `ReportWriter` folded over a recorded fired-event stream; answers the
-                                         final report, the number of events handled and the first error class;
+                                         final report, the number of events handled, the first error class, and whether
+                                         the sibling names of the final report are distinct (`Writer.uniqNames`: the
+                                         hypothesis of the `C06Loc` theorems, checked on every real run);
     {"attach": {"lock": b, "trace": [[tid, act], ...]}}
                                          M14: an observed interleaving of the atomic steps of
                                          `prepare_attachment` replayed on the acceptor `Attach.run`;
@@ -20,6 +22,7 @@ import LccModel.Model.Session
 import LccModel.Model.Writer
 import LccModel.Model.Threads
 import LccModel.Model.AttachStore
+import LccModel.Lemmas.WriterCongr
 open Lean LccModel LccModel.Proto LccModel.ProtoReport LccModel.Report LccModel.Session
 
 def decOp (j : Json) : Except String (Nat × Op) := do
@@ -93,6 +96,7 @@ def handleEvents (j : Json) : Except String Json := do
   pure (Json.mkObj [
     ("handled", Json.num k),
     ("error", match e with | none => Json.null | some m => Json.str m),
+    ("uniq", Json.bool (Writer.uniqNames w.report)),
     ("report", encReport w.report)])
 
 open LccModel.Threads in
